@@ -138,9 +138,33 @@ def IMP(a, b):
     return z3.Implies(a, b)
 
 
+def _inner_bound_names(e, seen=None, out=None):
+    """names bound by quantifiers inside e"""
+    seen = set() if seen is None else seen
+    out = set() if out is None else out
+    todo = [e]
+    while todo:
+        x = todo.pop()
+        if x.get_id() in seen:
+            continue
+        seen.add(x.get_id())
+        if z3.is_quantifier(x):
+            for i in range(x.num_vars()):
+                out.add(x.var_name(i))
+            todo.append(x.body())
+        else:
+            todo.extend(x.children())
+    return out
+
+
 def forall(vs, body, pats=None):
     if not isinstance(vs, (list, tuple)):
         vs = [vs]
+    # a nested quantifier that re-binds one of these variables would capture its occurrences inside (the formula would
+    # silently say something else): refuse to build it
+    clash = {str(v) for v in vs} & _inner_bound_names(body)
+    if clash:
+        raise ValueError(f"bound variable {sorted(clash)} is re-bound by a nested quantifier (variable capture)")
     if pats:
         return z3.ForAll(list(vs), body, patterns=pats)
     return z3.ForAll(list(vs), body)
